@@ -3,6 +3,7 @@ import CifModel.Model.StoreSchema
 import CifModel.Spec.DataModel
 import CifModel.Lemmas.StoreRefine
 import CifModel.Lemmas.StoreRefineQ
+import CifModel.Lemmas.StoreRefineS
 /-
   Property C04 — the managed CIF behaves as the documented data model under any API history.
 
@@ -682,6 +683,19 @@ theorem C04_refines_get_value (d : Db) (x : LoopRow) (i : ItemRow) (h : Inv d) (
 theorem C04_get_value_column (d : Db) (x : LoopRow) (i : ItemRow) (k : Nat) (hk : (d.loopItems x.cid x.loopNum)[k]? = some i) :
     (absLoop d x).packets.map (fun p => p.getD k .unk) = absColumn d x i :=
   absColumn_is_column d x i k hk
+
+/-- C04_refines, loop level, proved for set_value of an EXISTING item (SET_ALL_VALUES_SQL; "setting an item's value changes every
+    packet of its loop"): the item's loop keeps its names and its packets (same rows, same order); in every packet the item's
+    cell is the new value, every other cell is what it was; every other loop of the CIF is what it was; the loop, item, block and
+    frame tables are untouched.  No hypothesis beyond `Inv` (holds for packets with omitted items too). -/
+theorem C04_refines_set_value (d : Db) (x : LoopRow) (i : ItemRow) (v : V) (h : Inv d) (hx : x ∈ d.loops)
+    (hi : i ∈ d.loopItems x.cid x.loopNum) :
+    let d' := (d.setAllValues x.cid i.name v).1
+    absLoop d' x = { absLoop d x with packets := (d.loopRows x.cid x.loopNum).map (fun r =>
+        (d.loopItems x.cid x.loopNum).map (fun j => if j.name == i.name then v else cell d x.cid j r)) } ∧
+    (∀ y ∈ d.loops, ¬(y.cid = x.cid ∧ y.loopNum = x.loopNum) → absLoop d' y = absLoop d y) ∧
+    d'.loops = d.loops ∧ d'.items = d.items ∧ d'.frames = d.frames ∧ d'.blocks = d.blocks :=
+  setAllValues_refines d x i v h hx hi
 
 /-- `absLoops` is what `abs` shows as the loops of a container -/
 theorem C04_absLoops_is_abs (d : Db) (fuel cid : Nat) (code : Str) : (absContainer d (fuel + 1) cid code).loops = absLoops d cid := by
